@@ -13,6 +13,17 @@ from . import common, gen, cli
 PROBE = os.path.join(common.VERIF, "cverif", "probe.py")
 
 
+def staging_name():
+    """the directory name `cond restore` stages in (read from the code under test, so that the workloads that plant
+    leftovers of a killed restore keep hitting the right place)"""
+    try:
+        common.import_repo()
+        from conductor.config import ARCHIVE_STAGING
+        return ARCHIVE_STAGING
+    except Exception:
+        return "archive-tmp"
+
+
 def b64(b):
     return base64.b64encode(b).decode()
 
